@@ -147,8 +147,9 @@ class RuntimeAssertionFeedback(AssertionFeedback):
             assertion_message = kwargs['assertion'] + "\n"
         else:
             assertion_message = self.format_assertion(left, right, contexts)
-        # Calculate explanation
-        explanation = kwargs.get("explanation", "")
+        # Calculate explanation (a field of the message, not an argument of
+        # the condition that the remaining keywords are handed to)
+        explanation = kwargs.pop("explanation", "")
         # Add in new fields
         fields = kwargs.setdefault('fields', {})
         fields['left'] = left.value
